@@ -1,8 +1,8 @@
 """C17 -- IRI patterns and examples come from the data.
 
-Theorems: Props/C17.v (C17_stem_longest_partial / C17_stem_none_partial on C17_dom,
-C17_stem_as_implemented / C17_stem_prefix_sep_longest for all id lists, C17_class_stem,
-C17_examples_from_data, C17_examples_total, ...).
+Theorems: Props/C17.v (C17_stem_longest / C17_stem_none / C17_stem_bnode_class_none on C17_dom,
+C17_stem_shaped_longest / C17_stem_shaped_none / C17_stem_prefix_sep_longest for all well-formed
+id lists, C17_class_stem, C17_examples_from_data, C17_examples_total, ...).
 
 Correspondence
   (a) function level, bounded-exhaustive: the real `longest_common_prefix`,
@@ -16,6 +16,16 @@ Correspondence
       with the options off.
 Oracle (written from the property text, independent of the model): brute force over all
 prefixes for the longest admissible stem; example membership against the triples.
+
+Blank nodes.  An instance id is an IRI or a blank-node label (_:label); a blank node has no IRI,
+so a class with a blank-node instance has no admissible stem ("a prefix of the IRI of every
+instance").  Function level: id lists of labels only / of labels and IRIs / of ids close to the
+marker; end to end: every fifth graph once more with the instances of some classes turned into
+blank nodes whose labels share a prefix reaching a ':' (bnodify_case), also through the decorated
+text stream.  On the source without the first test of _determine_suitable_iri_pattern
+(Gen.Consts.c_min_iri_skips_bnode_prefix = false, asked from the model binary: entry c17_info)
+a class of blank nodes only gets a piece of its labels as stem: finding C17-F5 (= C09-F3), such
+lists are outside C17_dom there; with the test nothing is excused and C17_dom holds them.
 """
 import itertools
 import json
@@ -45,9 +55,19 @@ def spec_bare_scheme(s):
     return re.fullmatch(r"[^:/#]+:/?/?", s, re.S) is not None
 
 
-def spec_admissible(s, ids):
+def spec_is_bnode(i):
+    """an instance id is an IRI or the label of a blank node, written _:label; a blank node has no IRI"""
+    return i.startswith("_:")
+
+
+def spec_stem_shaped(s, ids):
     return (len(s) >= 3 and s[-1] in SEPS and all(i.startswith(s) for i in ids)
             and not spec_bare_scheme(s))
+
+
+def spec_admissible(s, ids):
+    """"a prefix of the IRI of every instance": every instance has an IRI, and the stem has the shape of one"""
+    return spec_stem_shaped(s, ids) and not any(spec_is_bnode(i) for i in ids)
 
 
 def spec_stem(ids):
@@ -75,6 +95,8 @@ def root_cause(ids, printed):
     want = spec_stem(ids)
     if printed == want:
         return None
+    if printed is not None and want is None and spec_is_bnode(printed) and all(spec_is_bnode(i) for i in ids):
+        return RC_BNODE      # a piece of the blank-node LABELS of a class of blank nodes only (C17-F5 = C09-F3)
     if printed is not None and spec_bare_scheme(printed):
         return "C17-F1"      # a bare scheme other than http(s) is printed
     if printed is None and want is not None:
@@ -82,6 +104,46 @@ def root_cause(ids, printed):
         if cand is not None and cand.startswith("http") and 3 <= len(cand) < 9:
             return "C17-F2"  # non-scheme stem withheld by the "http... shorter than 9" test
     return "unexplained"
+
+
+RC_BNODE = "C17-F5"
+_GUARD = {}
+
+
+def bnode_guard_present(mb=None):
+    """Gen.Consts.c_min_iri_skips_bnode_prefix, asked from the model binary (entry c17_info): True iff the source tree
+    the constants were generated from carries `if longest_common_prefix.startswith("_:"): return None` first in
+    AnnotateMinIriStrategy._determine_suitable_iri_pattern (tools/gen_consts.py accepts exactly the two texts).  With
+    the test a label stem is never excused by C17-F5 / C09-F3."""
+    pid = os.getpid()
+    if pid not in _GUARD:
+        _GUARD.clear()
+        own = mb is None
+        if own:
+            mb = core.ModelBin()
+        try:
+            _GUARD[pid] = mb.call("c17_info", [["x"]])[0][0] == "1"
+        finally:
+            if own:
+                mb.close()
+    return _GUARD[pid]
+
+
+def bnode_guard_probe():
+    """the same question put to the real function (cross-check of the generated flag, reported in the evidence)"""
+    return _real()["det"]("_:genid:b") is None and _real()["det"]("x:genid:b") is not None
+
+
+def excused(rc, findings, dom, mb=None):
+    """a root cause is excused iff it is a listed known finding and the case is outside C17_dom (as the model's
+    computable domain test says); the label stem moreover only on the source that has the defect"""
+    if mb is None and rc == RC_BNODE:
+        return False                       # no model binary: nothing can be said about the source text
+    if rc not in findings or dom:
+        return False
+    if rc == RC_BNODE and bnode_guard_present(mb):
+        return False
+    return True
 
 
 def in_quantifier(ids):
@@ -197,6 +259,21 @@ def function_level_inputs(tier):
     stems += [list(t) for t in itertools.product(w4, repeat=2)]
     w5 = words("h:/", 5)
     stems += [list(t) for t in itertools.product(w5, repeat=2)]
+    # blank-node labels (finding C09-F3 / C17-F5 and its repair): everything that starts with the marker, with '_'
+    # and with ':' over a small alphabet; id lists of labels only, of labels and IRIs, of IRI-like ids close to the marker
+    B = "_:ab/"
+    det += ["_:" + w for w in words(B, 5 if big else 4)] + words("_:a", 6 if big else 5)
+    det += ["_:genid:b", "_:genid:", "_:genid", "_:g\u00e9:b", "_:\u00e9:", "_", "_:", "_::", "_:/", "_:#a"]
+    wb = words("_:a", 3)
+    lcp += [(a, b) for a in wb for b in wb]
+    lcp += [("_:genid:b0", "_:genid:b1"), ("_:genid:b0", "http://e/a"), ("_:b0", "_:b1"), ("_:\u00e9:b0", "_:\u00e9:b1")]
+    bpool = ["_:b0", "_:b1", "_:genid:b0", "_:genid:b1", "_:genid:c", "_:genid", "_:a:b/c", "_:a:b/d", "_:a:b", "_:",
+             "_:x", "_::", "_:a:", "_:\u00e9:b0", "_:\u00e9:b1", "_", "_x:/a", "_x:/b", "_/a:b", "_/a:c", "_:/", "_:/a",
+             "http://e/a", "http://e/b", "urn:x:a"]
+    stems += [list(t) for t in itertools.product(bpool, repeat=2)]
+    stems += [list(t) for t in itertools.product(bpool if big else bpool[::2] + ["_:genid:b1"], repeat=3)]
+    sb = words("_:a", 4)
+    stems += [list(t) for t in itertools.product(sb, repeat=2)]
     det = list(dict.fromkeys(det))
     lcp = list(dict.fromkeys(lcp))
     stems = [list(t) for t in dict.fromkeys(tuple(x) for x in stems)]
@@ -280,6 +357,37 @@ def gen_case(seed, idx):
     triples = list(dict.fromkeys(triples))
     rnd.shuffle(triples)
     return {"idx": idx, "triples": triples, "classes": classes, "ns": rnd.choice(NS_DICTS)}
+
+
+BN_FAMILIES = ["_:genid:b%d", "_:genid:b%d", "_:n:x:%d", "_:g%d", "_:doc.a:%d", "_:a:b:c%d", "_:\u00e9:%d"]
+
+
+def bnodify_case(case, seed):
+    """a copy of the graph in which the instances of some classes are blank nodes whose labels come from one family
+    per class (labels that share a prefix reaching a ':' -- legal in N-Triples: PN_CHARS_U): classes of blank nodes
+    only and, through shared instances, classes with both kinds"""
+    rnd = random.Random("bn/%d/%s" % (seed, case["idx"]))
+    triples = case["triples"]
+    classes = list(case["classes"])
+    chosen = [c for c in classes if rnd.random() < 0.6] or [rnd.choice(classes)]
+    m = {}
+    for c in chosen:
+        fam = rnd.choice(BN_FAMILIES)
+        partial = rnd.random() < 0.25      # some instances keep their IRI: a mixed class
+        for (sk, sid, p, ok, o1, o2) in triples:
+            if p == RDF_TYPE and ok == "I" and o1 == c and sk == "I" and sid not in m:
+                if partial and rnd.random() < 0.5:
+                    continue
+                m[sid] = fam % len(m)
+    def f(kind, x):
+        return ("B", m[x]) if kind == "I" and x in m else (kind, x)
+    out = []
+    for (sk, sid, p, ok, o1, o2) in triples:
+        s2 = f(sk, sid)
+        o = f(ok, o1) if ok != "L" else (ok, o1)
+        out.append((s2[0], s2[1], p, o[0], o[1], o2))
+    out = list(dict.fromkeys(out))
+    return {"idx": "bn%s" % case["idx"], "triples": out, "classes": classes, "ns": case["ns"]}
 
 
 def nt_term(kind, a, b=""):
@@ -604,8 +712,12 @@ def check_case(case, res, mb, stats, run, findings):
                 stats["stem_checks"] += 1
                 stats["stem_kinds"][("none" if printed is None else "some")] += 1
                 rc = root_cause(ids, printed)
+                if all(spec_is_bnode(i) for i in ids):
+                    stats["bnode_only_class_checks"] = stats.get("bnode_only_class_checks", 0) + 1
+                elif any(spec_is_bnode(i) for i in ids):
+                    stats["mixed_class_checks"] = stats.get("mixed_class_checks", 0) + 1
                 if rc is not None:
-                    if rc in findings and not m["dom"].get(c, False):
+                    if excused(rc, findings, m["dom"].get(c, False), mb):
                         stats["known_hits"][rc] = stats["known_hits"].get(rc, 0) + 1
                     else:
                         stats["spec_fail"].append((
@@ -718,7 +830,7 @@ def replay_finding(fid, f):
     ob = res["runs"][0]
     c = rp["classes"][0]
     ids = spec_instances(case["triples"], c)
-    if fid in ("C17-F1", "C17-F2"):
+    if fid in ("C17-F1", "C17-F2", RC_BNODE):
         printed = ob["stems"].get(c)
         return root_cause(ids, printed) == fid, "stem printed: %r, asked for: %r" % (printed, spec_stem(ids))
     if fid == "C17-F3":
@@ -814,7 +926,7 @@ def run(tier, seed, replay=None):
             rc = root_cause(ids, a[1])
             if rc is None:
                 continue
-            if rc in findings and not dom:
+            if excused(rc, findings, dom, mb):
                 known_hits[rc] = known_hits.get(rc, 0) + 1
             else:
                 spec_fail.append(("stem %r for instance ids %r; the property asks for %r (root cause %s, in C17_dom: %s)" % (
@@ -835,6 +947,8 @@ def run(tier, seed, replay=None):
         n_corpus = len(cases)
         n_graphs = 2500 if tier == "thorough" else 450
         cases += [gen_case(seed, i) for i in range(n_graphs)]
+        # every fifth graph once more with blank-node instances (label families that share a prefix reaching a ':')
+        cases += [bnodify_case(c, seed) for c in cases[n_corpus:][::5]]
     elif rp.get("kind") == "graph":
         c = dict(rp["case"])
         c["triples"] = [tuple(t) for t in c["triples"]]
@@ -943,7 +1057,11 @@ def run(tier, seed, replay=None):
                     (len(STRUCT_PREFIXES) * len(STRUCT_TAILS), len(cases), len(CONFIGS))),
         "exhaustive": True if rp is None else False,
         "exhaustive_scope": "function-level spaces listed in `rule` are enumerated completely; the end-to-end part is sampled",
+        "bnode_prefix_guard_in_source": (bnode_guard_present() if bs.model_ok else None),
+        "bnode_prefix_guard_probe_of_real_function": bnode_guard_probe(),
         "end_to_end": {"graphs": len(cases), "corpus_cases_replayed_first": n_corpus, "real_runs": stats["runs"], "stem_checks": stats["stem_checks"],
+                       "stem_checks_on_classes_of_blank_nodes_only": stats.get("bnode_only_class_checks", 0),
+                       "stem_checks_on_classes_with_both_kinds": stats.get("mixed_class_checks", 0),
                        "stems_printed": stats["stem_kinds"]["some"], "stems_withheld": stats["stem_kinds"]["none"],
                        "shape_example_checks": stats["shape_ex_checks"], "constraint_example_checks": stats["cons_ex_checks"],
                        "extraction_errors": stats["impl_errors"], "reader_monitor_skips": reader_bad},
